@@ -19,7 +19,7 @@ ASSUMPTIONS = ["exponents >= 1.1 for powerlaw_sample so that the float transform
 EXHAUSTIVE = {"quick": ["subsample: every count vector of length<=3 with entries<=3 x every n in 0..total (one seed each)"],
               "thorough": ["subsample: every count vector of length<=4 with entries<=3 x every n in 0..total x 3 seeds"]}
 REQUIRE = {"subsample_cases": 200, "subsample_n_equals_total": 10, "subsample_n_zero": 10, "subsample_too_many_raises": 10,
-           "downsample_cases": 60, "downsample_identity": 15, "downsample_subsampled": 25, "downsample_table": 10,
+           "downsample_cases": 60, "downsample_identity": 15, "downsample_subsampled": 25, "downsample_table": 10, "downsample_table_duplicated_index": 5,
            "powerlaw_sample_cases": 30, "mle_closed_form_cases": 30, "mle_exact_cases": 10, "uniformity_tests": 6}
 SHARDS = {"quick": 4, "thorough": 16}
 
@@ -110,9 +110,12 @@ def k_downsample(ctx, seqs, maxseqs, container, np_seed):
     ctx.count("downsample_cases")
     ctx.nontriv(["down", seqs, maxseqs, container, np_seed])
     ctx.sample(f"downsample:{container}", {"n": len(seqs), "maxseqs": maxseqs})
-    if container == "table":
+    if container in ("table", "table_dupindex"):
         ctx.count("downsample_table")
-        x = pd.DataFrame({"CDR3B": seqs, "tag": [f"t{i}" for i in range(len(seqs))]}, index=[f"r{i}" for i in range(len(seqs))])
+        idx = [f"r{i}" for i in range(len(seqs))] if container == "table" else [f"r{i % 3}" for i in range(len(seqs))]
+        if container == "table_dupindex":
+            ctx.count("downsample_table_duplicated_index")
+        x = pd.DataFrame({"CDR3B": seqs, "tag": [f"t{i}" for i in range(len(seqs))]}, index=idx)
     elif container == "ndarray":
         x = np.array(seqs)
     elif container == "series":
@@ -134,14 +137,15 @@ def k_downsample(ctx, seqs, maxseqs, container, np_seed):
     if len(r) != maxseqs:
         ctx.violation(f"downsample:{container}:size", f"returned {len(r)} elements, expected exactly maxseqs={maxseqs}", len(r), maxseqs)
         return
-    if container == "table":
-        labels = list(r.index)
-        if len(set(labels)) != len(labels) or any(l not in x.index for l in labels):
-            ctx.violation("downsample:table:not-a-row-subset", "rows are not a subset of the input rows", labels[:10], None)
+    if container in ("table", "table_dupindex"):
+        tags = r["tag"].tolist()
+        orig = {t: (lab, seq) for t, lab, seq in zip(x["tag"].tolist(), list(x.index), x["CDR3B"].tolist())}
+        if len(set(tags)) != len(tags) or any(t not in orig for t in tags):
+            ctx.violation(f"downsample:{container}:not-a-row-subset", "rows are not a subset of the input rows (a row repeated or unknown)", tags[:10], None)
             return
-        for l in labels:
-            if list(r.loc[l]) != list(x.loc[l]):
-                ctx.violation("downsample:table:row-changed", "a row's content changed", list(r.loc[l]), list(x.loc[l]))
+        for t, lab, seq in zip(tags, list(r.index), r["CDR3B"].tolist()):
+            if orig[t] != (lab, seq):
+                ctx.violation(f"downsample:{container}:row-changed", "a row's label or content changed", [lab, seq], list(orig[t]))
                 return
     else:
         got = collections.Counter(str(v) for v in list(r))
@@ -209,11 +213,13 @@ def k_mle(ctx, c, cmin):
         def ll(al):
             return -n * math.log(_hzeta(al, cmin, 1500)) - al * slog
         best = ll(a)
+        # the bounded scalar optimiser stops within ~1e-5 of the optimum: allow the likelihood change over 1e-4 around the answer
+        slack = max(abs(ll(min(hi, a + 1e-4)) - best), abs(ll(max(lo, a - 1e-4)) - best)) + 1e-7 * max(1.0, abs(best))
         step = (hi - lo) / 1999
         for i in range(2000):
             g = lo + i * step
             v = ll(g)
-            if v > best + 1e-6 * max(1.0, abs(best)):
+            if v > best + slack:
                 ctx.violation("powerlaw_mle_alpha:exact:not-a-maximiser", f"alpha={g:.4f} has a higher discrete log-likelihood than the returned {a:.4f}",
                               {"returned": a, "loglik": best}, {"alpha": g, "loglik": v})
                 return
@@ -249,7 +255,7 @@ def generate(tier, seed):
     for i in range(1500 if thorough else 120):
         seqs = G.small_multiset(rng, pools[i % 2], 1, 30)
         maxseqs = rng.choice([None, 0, 1, 2, 3, 5, 10, len(seqs), len(seqs) - 1 if len(seqs) > 1 else 1, 100])
-        yield "downsample", {"seqs": seqs, "maxseqs": maxseqs, "container": ["list", "ndarray", "table", "series"][i % 4], "np_seed": seed * 13 + i}, i < 60
+        yield "downsample", {"seqs": seqs, "maxseqs": maxseqs, "container": ["list", "ndarray", "table", "series", "table_dupindex"][i % 5], "np_seed": seed * 13 + i}, i < 60
     for i in range(600 if thorough else 50):
         yield "powerlaw_sample", {"size": rng.choice([0, 1, 2, 10, 1000]), "xmin": rng.choice([1, 1, 2, 5, 30]),
                                   "alpha": rng.choice([1.1, 1.5, 2.0, 2.5, 3.0, 6.0]), "np_seed": seed * 17 + i}, i < 30
